@@ -133,7 +133,8 @@ def make_config(rng):
   opts = gen.Opts(max_nodes=rng.choice([3, 6, 10]), max_depth=4, p_share=0.25, p_clone=0.1,
                   btypes=['Config', 'Config', 'Partial'], fns=FNS, lattice=0.1, leaves=LEAVES,
                   containers=['list', 'dict', 'dict', 'tuple', 'list'], p_container=0.4, uid=False,
-                  dict_keys=['k', 'j', 'a b', 3, 0, 'x.y', 'k2', 17])
+                  dict_keys=['k', 'j', 'a b', 3, 0, 'x.y', 'k2', 17, 'back\\slash', 'new\nline', 'tab\t',
+                             'caf\u00e9', 'ctl\x01'])
   g = gen.DagGen(rng, opts)
   return g.dag()
 
